@@ -174,14 +174,23 @@ func c12Stage(g *Gen, form int) *LNode {
 		return LO("$lookup", LO("from", LO("db", g.ns("db", g.o.DB), "coll", g.auxColl()), "localField", LS("a").DC(), "foreignField", LS("b").DC(), "as", LS("j").DC()))
 	case 12:
 		return LO("$merge", LO("into", LO("db", g.ns("db", g.o.DB), "coll", g.auxColl()), "on", LA(LS("_id").DC(), LS("k").DC()), "let", LO("v", g.sec()), "whenMatched", LA(LO("$set", LO(g.Fn(), g.sec()))), "whenNotMatched", LS("insert").DC()))
-	default:
+	case 13:
 		return LO("$out", LO("coll", g.auxColl(), "db", g.ns("db", g.o.DB)))
+	case 14:
+		// the members of a namespace document in other orders, with other members in front and in between
+		return LO("$merge", LO("into", LO("coll", g.auxColl(), "db", g.ns("db", g.o.DB)), "on", LS("_id").DC()))
+	case 15:
+		return LO("$lookup", LO("localField", LS("a").DC(), "from", LO("coll", g.auxColl(), "db", g.ns("db", g.o.DB)), "foreignField", LS("b").DC(), "as", LS("j").DC()))
+	case 16:
+		return LO("$out", LO("timeseries", LO("timeField", LS("ts").DC()), "coll", g.auxColl(), "db", g.ns("db", g.o.DB)))
+	default:
+		return LO("$unionWith", LO("pipeline", inner(), "coll", g.auxColl()))
 	}
 }
 
-const c12Forms = 14
+const c12Forms = 18
 
-var c12FormNames = []string{"$lookup(localField)", "$lookup(pipeline)", "$graphLookup", "$unionWith(string)", "$unionWith(doc)", "$merge(string)", "$merge(into string)", "$merge(into doc)", "$out(string)", "$out(doc)", "$out(doc+timeseries)", "$lookup(from doc)", "$merge(into doc + let + pipeline)", "$out(doc, coll first)"}
+var c12FormNames = []string{"$lookup(localField)", "$lookup(pipeline)", "$graphLookup", "$unionWith(string)", "$unionWith(doc)", "$merge(string)", "$merge(into string)", "$merge(into doc)", "$out(string)", "$out(doc)", "$out(doc+timeseries)", "$lookup(from doc)", "$merge(into doc + let + pipeline)", "$out(doc, coll first)", "$merge(into doc, coll first)", "$lookup(from doc, coll first, after localField)", "$out(doc, timeseries first, coll before db)", "$unionWith(doc, pipeline first)"}
 
 // c12GenStageCase: an aggregate line whose pipeline holds one namespace-bearing stage at a nesting
 // depth 0..3 under $facet / $lookup.pipeline / $unionWith.pipeline, in every container and gate.
